@@ -352,6 +352,9 @@ def check_known_region(mod, kf, o):
   return True, ''
 
 
+_NATIVE_MEMO = {}
+
+
 def make_replay(mod, p, pid, o):
   path = os.path.join(VERIF, 'replays', pid,
                       re.sub(r'[^A-Za-z0-9_.#-]+', '_', o.name) + '.json')
@@ -384,10 +387,18 @@ def make_replay(mod, p, pid, o):
       rec['native']['output'] = f'replayer error: {e!r}'
     if drv:
       rec['driver'] = drv
-      res = run_native(drv['script'], drv['payload'])
+      # native runs are memoised: the same driver payload is run once, and the bounded sweep of a checker is run once per
+      # check, however many instances (#k, one per path) of an obligation were refuted
+      key1 = json.dumps([drv['script'], drv['payload']], sort_keys=True, default=str)
+      if key1 not in _NATIVE_MEMO:
+        _NATIVE_MEMO[key1] = run_native(drv['script'], drv['payload'])
+      res = _NATIVE_MEMO[key1]
       rec['native'] = res
       if not res.get('failed') and drv.get('sweep'):
-        res2 = run_native(drv['script'], drv['sweep'])
+        key2 = json.dumps([drv['script'], drv['sweep']], sort_keys=True, default=str)
+        if key2 not in _NATIVE_MEMO:
+          _NATIVE_MEMO[key2] = run_native(drv['script'], drv['sweep'])
+        res2 = _NATIVE_MEMO[key2]
         if res2.get('failed'):
           rec['native'] = res2
           rec['driver'] = {'script': drv['script'],
